@@ -57,6 +57,12 @@ CHECKS = {
  "C15": dict(
     text="(a) exhaustive grid of assert_max_spread over (offer,return,spread) boundary alphabet^3 x 10 max_spread values x 7 belief prices against the documented rule in exact rationals (1.3e6 points); (b) exhaustive grid of assert_slippage_tolerance (pair CP and stableswap arms, 3pool) over deposits x pools x tolerances; (c) in BFS-reached states of the real CP and stableswap pairs: swaps with every (max_spread, belief) pair must succeed iff within the limit judged on the realised amounts; (d) router: minimum_receive in {D-1,D,D+1} around the simulated amount, receivers with balance {0,5,1e9}, all 1-3 hop routes: success iff delta >= m.",
     note="A one-unit / 1e-18 indifference band around each threshold; undefined 0/0 ratios are counted, not judged.", tech="exhaustive input-grid enumeration + explicit-state probes on the implementation", ref="DESIGN.md §4 C15"),
+ "C16": dict(
+    text="Fully enumerated privilege matrix on one deployment holding every contract of the hub: 39 privileged ExecuteMsg variants (hand-classified table in the evidence) x 20 caller roles (owner, other owner, users, flow creator, a real proxy contract, each hub contract's address as sender) x {before, after transferring ownership of every contract}: an unauthorised caller must be rejected with full-state equality, the authorised caller with the same payload must succeed (so rejections are due to the caller), after the transfer the roles swap.",
+    note="Classification table is hand-written from the property. Known finding: router AssertMinimumReceive has no sender check.", tech="exhaustive matrix enumeration on the implementation (explicit-state, one transaction deep)", ref="DESIGN.md §4 C16"),
+ "C17": dict(
+    text="Fully enumerated: {CP pair, stableswap pair, 3pool} x {with, without liquidity} x 2^3 toggle combinations x every entry path (direct ProvideLiquidity, via frontend_helper; LP Send{WithdrawLiquidity}, direct WithdrawLiquidity{}; native Swap, cw20 Send{Swap}, router 1-hop native / 1-hop cw20 Send / 2-hop first hop / 2-hop second hop) and {native, cw20 vault} x liquidity x 2^3 x {Deposit, Send{Withdraw}, Withdraw{}, FlashLoan direct, via vault_router}: disabled => rejected with full-state equality; enabled => same result and same balance deltas as the all-enabled control; disable->enable restores storage and behaviour; fresh pools/vaults start enabled.",
+    note="Default features; toggles set through the factories.", tech="exhaustive matrix enumeration with a differential oracle on the implementation", ref="DESIGN.md §4 C17"),
 }
 NOT_BUILT = "check not built yet in this round (planned, see DESIGN.md)"
 props = [json.loads(l) for l in open('/verif/properties.jsonl')]
